@@ -400,6 +400,98 @@ def small_enumeration():
     return out
 
 
+RENDER_DIRS = 'YymdbBHMS'
+RENDER_SEPS = ['/', '-', '.', ' ', '', '', ', ', 'T', ':', '  ', ' de ', 'x', '%%', '\xa0', '\t', '. ', 'é', '0', '#']
+
+
+def gen_fmtok_format(r):
+    """a format the round-trip theorem speaks about: directives among %Y %y %m %d %b %B %H %M %S, year + month + day present, none twice"""
+    dirs = [r.choice('Yy'), r.choice('mbB'), 'd'] + r.sample('HMS', r.choice([0, 0, 0, 1, 2, 3]))
+    if r.random() < 0.15:
+        dirs.append(r.choice([d for d in 'YymbB' if d not in dirs]))      # a second year / month directive (consistent by construction)
+    r.shuffle(dirs)
+    out = r.choice(['', '', '', 'Posted ', '('])
+    for i, d in enumerate(dirs):
+        if i:
+            out += r.choice(RENDER_SEPS) if r.random() < 0.5 else r.choice(['/', '-', '.', ' ', ''])
+        out += '%' + d
+    return out + r.choice(['', '', '', ')', ' h', '.'])
+
+
+def gen_spells(r, fmt, dt):
+    """a spelling per item of the compiled format: one-digit fields, other white space, other letter case of the month name"""
+    y, m = dt[0], dt[1]
+    sp = []
+    for kind, v in tokens(fmt):
+        if kind == 'dir' and v in 'mdHMS':
+            sp.append({'unpad': r.random() < 0.6})
+        elif kind == 'dir' and v in 'bB':
+            nm = (A_MONTH if v == 'b' else F_MONTH)[m - 1]
+            sp.append({'name': r.choice([nm.upper(), nm.lower(), nm.swapcase(), nm, nm[:-1], nm + 's'])} if r.random() < 0.6 else {})
+        elif kind == 'ws':
+            sp.append({'blanks': r.choice(BLANKS + ['', 'x'])} if r.random() < 0.5 else {})
+        else:
+            sp.append({})
+    return sp
+
+
+def render_check(ctx, r, n):
+    """`Strptime.strftimeWith` writes what `datetime.strftime` writes (strict spelling, year ≥ 1000), and executed instances of the
+    round-trip theorem: whenever the model says its hypotheses hold (FmtOk, valid, YearFits, SpellsOk), the model AND CPython read the
+    written text back as the date"""
+    cases, meta = [], []
+    for _ in range(n):
+        fmt = gen_fmtok_format(r) if r.random() < 0.8 else r.choice(BANK_FORMATS[:40])
+        dt = gen_datetime(r)
+        dirs = [v for k, v in (tokens(fmt) or []) if k == 'dir']
+        if 'y' in dirs and r.random() < 0.85:
+            dt = (r.randint(1969, 2068),) + dt[1:]
+            if dt[1] == 2 and dt[2] == 29 and not calendar.isleap(dt[0]):
+                dt = dt[:2] + (28,) + dt[3:]
+        strict = r.random() < 0.45
+        spells = [] if strict else gen_spells(r, fmt, dt)
+        line = {'op': 'strptime', 'fmt': fmt, 'render': {'y': dt[0], 'm': dt[1], 'd': dt[2], 'H': dt[3], 'M': dt[4], 'S': dt[5], 'spells': spells}}
+        tb = tables_for(fmt, ''.join(sp.get('blanks') or '' for sp in spells) + fmt)
+        if tb:
+            line['tables'] = tb
+        cases.append(line); meta.append((fmt, dt, strict, spells))
+    fails, stats = [], {'cases': 0, 'strict_texts_equal_datetime.strftime': 0, 'theorem_hypotheses_hold': 0, 'read_back_as_the_date': 0,
+                        'spelling_refused_by_SpellsOk': 0, 'refused_and_cpython_reads_another_date': 0, 'format_not_FmtOk': 0}
+    try:
+        out = common.Driver().batch(cases)
+    except Exception as e:
+        ctx.obligation('correspondence:datetime.strftime/strptime-vs-Strptime.strftimeWith+round-trip-instances', 'correspondence', False, error=str(e)[:400])
+        return stats
+    for (fmt, dt, strict, spells), m in zip(meta, out):
+        stats['cases'] += 1
+        if not m.get('fmtok'):
+            stats['format_not_FmtOk'] += 1
+            continue
+        truth = datetime.datetime(dt[0], dt[1], dt[2], *(dt[3 + i] if '%' + k in fmt else 0 for i, k in enumerate('HMS')))
+        py = py_strptime(m['text'], fmt)
+        if strict and dt[0] >= 1000:
+            want = datetime.datetime(*dt[:6]).strftime(fmt)
+            if m['text'] != want:
+                fails.append({'format': fmt, 'date': dt, 'datetime.strftime': want, 'Strptime.strftime': m['text']})
+                continue
+            stats['strict_texts_equal_datetime.strftime'] += 1
+        if m.get('valid') and m.get('yearfits') and m.get('spellsok'):
+            stats['theorem_hypotheses_hold'] += 1
+            if m.get('back') != truth.isoformat() or m.get('expect') != truth.isoformat() or py.get('ok') != truth.isoformat():
+                fails.append({'format': fmt, 'date': dt, 'spells': spells, 'text': m['text'], 'model_reads': m.get('back') or m.get('back_err'),
+                              'theorem_says': m.get('expect'), 'datetime.strptime': py, 'truth': truth.isoformat()})
+            else:
+                stats['read_back_as_the_date'] += 1
+        elif not m.get('spellsok'):
+            stats['spelling_refused_by_SpellsOk'] += 1
+            stats['refused_and_cpython_reads_another_date'] += ('ok' in py and py['ok'] != truth.isoformat())
+            if ('ok' in py) != ('back' in m) or py.get('ok') != m.get('back'):
+                fails.append({'format': fmt, 'text': m['text'], 'model_reads': m.get('back') or m.get('back_err'), 'datetime.strptime': py})
+    ctx.obligation('correspondence:datetime.strftime/strptime-vs-Strptime.strftimeWith+round-trip-instances', 'correspondence', not fails,
+                   cases=stats['cases'], error=json.dumps(fails[0], default=str)[:1500] if fails else None)
+    return stats
+
+
 def pairs_check(ctx, r, n, extra=()):
     """run the model and CPython on the pairs; registers the obligations; returns statistics"""
     pairs = list(extra) + gen_pairs(r, n)
